@@ -30,6 +30,11 @@ def is_complex(dt):
     return np.issubdtype(np.dtype(dt), np.complexfloating)
 
 
+def is_double(dt):
+    """float64 / complex128 (exact on small dyadics); float32 / complex64 are single precision"""
+    return np.dtype(dt) in (np.dtype(np.float64), np.dtype(np.complex128))
+
+
 def size_of(shape):
     if is_nested(shape):
         return sum(size_of(s) for s in shape)
@@ -326,10 +331,11 @@ def catalogue(rng, level=0, classes=None):
     # optics
     from scico.linop import optics
     for (shp, dx) in [((4,), 0.5), ((3, 4), 0.5), ((3, 4), (0.5, 0.25))]:
-        add("AngularSpectrumPropagator", dict(shape=shp, dx=dx),
-            lambda shp=shp, dx=dx: optics.AngularSpectrumPropagator(shp, dx, k0=2.0, z=1.0, pad_factor=1), kind=APPROX)
-        add("FresnelPropagator", dict(shape=shp, dx=dx),
-            lambda shp=shp, dx=dx: optics.FresnelPropagator(shp, dx, k0=2.0, z=1.0, pad_factor=2), kind=APPROX)
+        for pf in (1, 2):
+            add("AngularSpectrumPropagator", dict(shape=shp, dx=dx, pad_factor=pf),
+                lambda shp=shp, dx=dx, pf=pf: optics.AngularSpectrumPropagator(shp, dx, k0=2.0, z=1.0, pad_factor=pf), kind=APPROX)
+            add("FresnelPropagator", dict(shape=shp, dx=dx, pad_factor=pf),
+                lambda shp=shp, dx=dx, pf=pf: optics.FresnelPropagator(shp, dx, k0=2.0, z=1.0, pad_factor=pf), kind=APPROX)
         add("FraunhoferPropagator", dict(shape=shp, dx=dx),
             lambda shp=shp, dx=dx: optics.FraunhoferPropagator(shp, dx, k0=2.0, z=1.0), kind=APPROX)
     # Abel
